@@ -1,6 +1,7 @@
 package psgen
 
 import (
+	"math/big"
 	"pgregory.net/rapid"
 
 	"verif/harness/psref"
@@ -111,6 +112,43 @@ func (g *control) stmt(depth int, inLoop, first, last bool) []psref.Tok {
 	case k == 13 || k == 14:
 		g.feat["for"] = true
 		g.feat["loop"] = true
+		if g.draw(8, "widefor") == 0 {
+			// initial value and limit far apart (up to the whole integer
+			// range, on opposite sides of zero) with an increment so large that
+			// only 1-4 iterations fit; the first value beyond the limit still
+			// fits the integer type (an overflowing control variable is outside
+			// the domain)
+			g.feat["for-wide"] = true
+			sgn := int64(1 - 2*g.draw(2, "wideforsign"))
+			mags := []uint64{1 << 62, 5000000000000000000, 1<<63 - 1, 1 << 63, 1000000000000000000, 0}
+			A := mags[g.draw(len(mags), "wideforstart")]
+			if A == 1<<63 && sgn < 0 {
+				A = 1<<63 - 1
+			}
+			a := new(big.Int).SetUint64(A)
+			if sgn > 0 {
+				a.Neg(a)
+			}
+			incs := []int64{1 << 61, 1 << 62, 3000000000000000007, 4000000000000000000, 6000000000000000000, 1<<63 - 1}
+			inc := big.NewInt(sgn * incs[g.draw(len(incs), "wideforinc")])
+			n := int64(1 + g.draw(4, "wideforn"))
+			var last, beyond *big.Int
+			for ; ; n-- {
+				last = new(big.Int).Add(a, new(big.Int).Mul(inc, big.NewInt(n-1)))
+				beyond = new(big.Int).Add(last, inc)
+				if beyond.IsInt64() || n == 1 {
+					break
+				}
+			}
+			lim := last
+			switch g.draw(3, "wideforlim") {
+			case 1:
+				lim = new(big.Int).Sub(beyond, big.NewInt(sgn))
+			case 2:
+				lim = new(big.Int).Add(last, new(big.Int).Quo(inc, big.NewInt(2)))
+			}
+			return []psref.Tok{psref.TI(a.Int64()), psref.TI(inc.Int64()), psref.TI(lim.Int64()), g.proc(depth+1, true), psref.TX("for")}
+		}
 		a := int64(g.draw(5, "fora") - 1)
 		inc := []int64{1, 2, -1, -2, 3}[g.draw(5, "forinc")]
 		lim := int64(g.draw(7, "forlim") - 2)
